@@ -494,11 +494,15 @@ namespace awkward {
       contiguous_self.dtype(),
       ptr_lib_);
     for (int64_t i = (int64_t)shape_.size() - 1;  i > 0;  i--) {
+      int64_t outerlength = 1;
+      for (int64_t j = 0;  j < i;  j++) {
+        outerlength = outerlength * (int64_t)shape_[(size_t)j];
+      }
       out = std::make_shared<RegularArray>(Identities::none(),
                                            util::Parameters(),
                                            out,
                                            shape_[(size_t)i],
-                                           shape_[(size_t)(i - 1)]);
+                                           outerlength);
     }
     return out;
   }
